@@ -906,12 +906,24 @@ def check_default(prog, rep):
         for st in walk_no_nested(setter.node):
             if isinstance(st, ast.If) and isinstance(st.test, ast.Compare) and isinstance(st.test.ops[0], ast.Is) \
                     and isinstance(st.test.comparators[0], ast.Constant) and st.test.comparators[0].value is None:
+                par = setter.params()[1] if len(setter.params()) > 1 else "value"
+                loc = {s.targets[0].id: s.value for s in st.body if isinstance(s, ast.Assign) and isinstance(s.targets[0], ast.Name) and s.targets[0].id != par}
                 for s in st.body:
-                    if isinstance(s, ast.Assign):
-                        return s.value
+                    if isinstance(s, ast.Assign) and isinstance(s.targets[0], ast.Name) and s.targets[0].id == par:
+                        v = s.value
+                        if isinstance(v, ast.Dict):
+                            names = [x.id for x in v.values if isinstance(x, ast.Name) and x.id in loc]
+                            shared.extend(sorted({x for x in names if names.count(x) > 1}))
+                            v = ast.Dict(keys=v.keys, values=[loc[x.id] if isinstance(x, ast.Name) and x.id in loc else x for x in v.values])
+                        return v
         return None
+    shared = []
     dfn = default_of(p_fn.setter)
     dkw = default_of(p_kw.setter)
+    if shared:
+        rep.violate(R, construct, "the default keyword arguments hold ONE array object (%s) under several names: the objective signs and the preference vector are then the same "
+                    "storage, and setting one in place changes the other" % shared[0], where(p_kw.setter), "a separate numpy.repeat(1.0, self.nobj) per entry", shared[0])
+        return
     if not isinstance(dfn, ast.Name) or not isinstance(dkw, ast.Dict):
         rep.unrec(R, construct, "defaults are not `value = <function>` / `value = {...}` under `if value is None`")
         return
